@@ -21,7 +21,7 @@ RULE = ('seeded models designed to shift ids (virtual / non-virtual x with / wit
         'settings, ignore lists; one case = one toolbox; non-trivial = toolbox with >=1 virtual class and >=1 defaulted '
         'parameter; distinct = sha256 of the interface text + options')
 ASSUMPTIONS = ['the identity of a routine is read from its body by vlib/mlab.py (checkArguments label/count, collector, callee)',
-               'instantiated names contain no blank (D23) and no duplicate instantiation (user obligation)']
+               'no duplicate instantiation (user obligation)']
 MIN_EVENTS = {'quick': {'ids_checked': 8000, 'contract:_update_wrapper_id': 8000},
               'thorough': {'ids_checked': 200000, 'contract:_update_wrapper_id': 200000}}
 CONTRACT = {'evals': 0, 'fails': []}
